@@ -51,6 +51,9 @@ type Sched struct {
 	OnPass func(from, to, site int)
 	active bool
 	Panics []any
+	// First, if non-nil (length = number of yield sites), receives for every site the yield index at which
+	// it was first reached (-1 = never). Used on single-task runs to learn where a task's code goes.
+	First []int32
 	// Aborted: a task blocked in a real synchronisation primitive while holding the baton (no yield for
 	// several seconds); the scheduler let all tasks run freely to completion. The run's results are still
 	// checked, but its interleaving was not decided by the plan.
@@ -88,6 +91,23 @@ func (s *Sched) others(me int, cand *[MaxTasks]int) int {
 	return k
 }
 
+// Next as a Step.SwitchTo value means "the next unfinished task in cyclic index order" (round-robin).
+const Next = 255
+
+//go:norace
+func (s *Sched) choose(me int, cand *[MaxTasks]int, k int) int {
+	sel := s.plan[s.pi].SwitchTo
+	if sel == Next {
+		for i := 0; i < k; i++ {
+			if cand[i] > me {
+				return cand[i]
+			}
+		}
+		return cand[0]
+	}
+	return cand[int(sel)%k]
+}
+
 // yield is installed as simhook.Hook.
 //
 //go:norace
@@ -98,6 +118,9 @@ func (s *Sched) yield(site int) {
 	me := s.cur
 	if me < 0 {
 		return
+	}
+	if s.First != nil && site >= 0 && site < len(s.First) && s.First[site] < 0 {
+		s.First[site] = int32(s.Yields)
 	}
 	s.Yields++
 	if s.left > 0 {
@@ -115,7 +138,7 @@ func (s *Sched) yield(site int) {
 	if k == 0 {
 		return
 	}
-	to := cand[int(s.plan[s.pi].SwitchTo)%k]
+	to := s.choose(me, &cand, k)
 	s.Trace = append(s.Trace, Pass{From: me, To: to, Site: site})
 	if s.OnPass != nil {
 		s.OnPass(me, to, site)
@@ -136,7 +159,7 @@ func (s *Sched) finish(me int, panicked any) {
 	if k > 0 {
 		s.pi++
 		if s.pi < len(s.plan) {
-			to = cand[int(s.plan[s.pi].SwitchTo)%k]
+			to = s.choose(me, &cand, k)
 			s.left = s.plan[s.pi].RunFor
 		} else {
 			to = cand[0]
@@ -163,7 +186,9 @@ func (s *Sched) Run(tasks []func()) {
 	first := 0
 	s.left = ^uint32(0)
 	if len(s.plan) > 0 {
-		first = int(s.plan[0].SwitchTo) % s.n
+		if s.plan[0].SwitchTo != Next {
+			first = int(s.plan[0].SwitchTo) % s.n
+		}
 		s.left = s.plan[0].RunFor
 	}
 	simhook.Hook = s.yield
